@@ -19,7 +19,7 @@ RULE = ("Histories over 19 operations {rewrite same size, rewrite other size, to
         "both), '*'} after an initial plain GET: exhaustive to length 3 (thorough 4), random length 7 beyond; targets Files:/f.txt, Pages:/p (-> p.html), "
         "Pages:/sub/ (-> index.html); both interfaces; process time zone rotated over UTC, America/Los_Angeles, Asia/Kolkata, Pacific/Kiritimati, Etc/GMT+12. Non-trivial = history with >=1 modification between a response and the reuse of its validators; "
         "exhaustive histories are distinct by construction.")
-RULE += ' Also: the validators in either order with other request headers before, between and after them; replacement by a file of another size whose mtime was carried over (only ctime moves), If-None-Match lists with empty members and with a comma inside a tag, conditional requests sent as GET or HEAD, apps with every cacheability / max_age setting.'
+RULE += ' Also: (ASGI) the file replaced while another request for it is in flight, then a request with the old validators; a sweep over hundreds of (size, modification second) states of one file (no two states share an entity tag that revalidates); files whose names carry digests / dates / versions; 2-5 conditional requests with assorted validators in flight together on one app object; the validators in either order with other request headers before, between and after them; replacement by a file of another size whose mtime was carried over (only ctime moves), If-None-Match lists with empty members and with a comma inside a tag, conditional requests sent as GET or HEAD, apps with every cacheability / max_age setting.'
 ASSUMPTIONS = [
     "a request that carries only If-Modified-Since is not judged when the change time of the file is not later than the date the client holds although it lies in another second (file clock stepped backwards, or a carried-over mtime ahead of ctime): a date comparison cannot see such a change; ETag-carrying requests are judged",
     "file timestamps come from a virtual clock (os.stat is wrapped for sandbox paths only); content is really written to disk",
@@ -250,6 +250,9 @@ def setup(ctx):
         targets += [(iface, ns.Files(d), "/f.txt", os.path.join(d, "f.txt")), (iface, ns.Pages(d, cacheability="private"), "/p", os.path.join(d, "p.html"))]
         targets += [(iface, files, "/f.txt", os.path.join(d, "f.txt")), (iface, pages, "/p", os.path.join(d, "p.html")),
                     (iface, pages, "/sub/", os.path.join(d, "sub", "index.html")), (iface, pages, "/f.txt", os.path.join(d, "f.txt"))]
+        # file names as build tools and backups produce them (digests, dates, versions in the name): a name is no promise about the content
+        targets += [(iface, files, "/app.3f2a1b9c.txt", os.path.join(d, "app.3f2a1b9c.txt")), (iface, pages, "/backup-00c0ffee", os.path.join(d, "backup-00c0ffee.html")),
+                    (iface, ns.Files(d), "/report.20240131.min.txt", os.path.join(d, "report.20240131.min.txt"))]
     return targets
 
 
@@ -287,13 +290,170 @@ def run(ctx):
             t = rng.choice(targets)
             nt = run_history(ctx, vfs, t[0], t[1], t[2], t[3], seq, rng.choice([0.0, 0.3, 0.9]), rng.choice(ZONES), epoch=rng.choice([1_000_000.0, 4_000_000_000.0]))
             ctx.case((t[0], t[2], seq) if nt else None)
+        if ctx.shard == 0:
+            for t in targets:
+                if t[0] == "asgi":
+                    for busy in (0, 0.02):
+                        changed_while_in_flight(ctx, vfs, t, busy)
+                        ctx.case(("changed-while-in-flight", t[2], busy))
+        else:
+            ctx.mon("changed-while-in-flight", 0)
+        if ctx.shard == 0:
+            for t in (targets[0], targets[len(targets) // 2]):
+                tag_sweep(ctx, vfs, t, range(0, 140) if ctx.quick else range(0, 1200), (0, 1, 81, 3600, 86400))
+                tag_sweep(ctx, vfs, t, (121, 202, 133, 512, 1000, 1001, 65536), range(0, 200))
+                ctx.case(("tag-sweep", t[0]))
+        else:
+            ctx.mon("tag-sweep", 0)
+        # ---- several conditional requests in flight on one app object: every client is judged on its own validators (vf/inflight.py)
+        for g in range(ctx.scale(30, 1500)):
+            in_flight(ctx, vfs, targets, rng.randrange(10 ** 9))
+            ctx.case(("in-flight", g, ctx.shard))
         ctx.monitors["virtual-stat-calls"] = vfs.calls
     finally:
         vfs.close()
         set_zone("UTC")
 
 
+def tag_sweep(ctx, vfs, t, sizes, offsets):
+    """many (size, modification second) states of one file: a validator handed out for one state must not revalidate another.
+    Every state is served once; when two states were given the same entity tag the two-step history is replayed to show the stale 304."""
+    iface, app, url_path, file_path = t
+    seen = {}
+    for size in sizes:
+        with open(file_path, "wb") as f:
+            f.write(b"s" * size)
+        for off in offsets:
+            vfs.state[file_path] = {"m": 1_700_000_000.0 + off, "c": 1_700_000_000.0 + off}
+            st, h, body, exc = request(iface, app, url_path, [])
+            ctx.mon("tag-sweep")
+            if st != 200 or exc is not None:
+                ctx.violation("plain-request-not-200", {"iface": iface, "target": url_path, "size": size}, f"{st} {exc!r}")
+                return
+            other = seen.setdefault(h["etag"], (size, off))
+            if other != (size, off):
+                # replay: the client holds the tag of `other`; the file is now (size, off)
+                st2, _, _, _ = request(iface, app, url_path, [("If-None-Match", h["etag"])])
+                case = {"iface": iface, "target": url_path, "tag_sweep": {"held": {"size": other[0], "mtime_offset": other[1]}, "now": {"size": size, "mtime_offset": off}}}
+                if st2 == 304:
+                    ctx.violation("stale-304|entity-tag|two-different-states-share-one-tag", case, f"tag {h['etag']} was handed out for {other} and revalidates {(size, off)}")
+                    return
+
+
+def changed_while_in_flight(ctx, vfs, t, busy):
+    """(ASGI) a request for the file is still in flight - its task has started, the event loop is busy for a moment - when the
+    file is replaced; a second request that arrives after the replacement with the old validators must get the new file"""
+    import asyncio
+    import time
+    iface, app, url_path, file_path = t
+    with open(file_path, "wb") as f:
+        f.write(b"old content")
+    vfs.state[file_path] = {"m": 1_800_000_000.0, "c": 1_800_000_000.0}
+    st, h, body, exc = request(iface, app, url_path, [])
+    if st != 200 or exc is not None:
+        return
+    out = {}
+
+    async def call(headers):
+        sent = []
+
+        async def receive():
+            await asyncio.Event().wait()
+
+        async def send(m):
+            sent.append(m)
+        scope = drivers.to_scope(drivers.Req(path=url_path.encode(), headers=headers, server=("t", 80)))
+        await app(scope, receive, send)
+        return sent[0]["status"], b"".join(m.get("body", b"") for m in sent[1:])
+
+    async def main():
+        t1 = asyncio.ensure_future(call([]))
+        for _ in range(2):
+            await asyncio.sleep(0)
+        if busy:
+            time.sleep(busy)  # the loop is busy with something else for a moment
+        with open(file_path, "wb") as f:
+            f.write(b"new and longer content")
+        vfs.state[file_path] = {"m": 1_800_000_100.0, "c": 1_800_000_100.0}
+        t2 = asyncio.ensure_future(call([("If-None-Match", h["etag"]), ("If-Modified-Since", h["last-modified"])]))
+        out["first"], out["second"] = await asyncio.gather(t1, t2)
+    lp = asyncio.new_event_loop()
+    try:
+        lp.run_until_complete(asyncio.wait_for(main(), 30))
+    finally:
+        lp.close()
+    ctx.mon("changed-while-in-flight")
+    case = {"iface": iface, "target": url_path, "changed_while_in_flight": True, "loop_busy_for": busy}
+    st2, body2 = out["second"]
+    if st2 == 304:
+        ctx.violation("stale-304|request-arrived-after-the-change|another-request-was-in-flight", case, "old validators revalidated although the file had been replaced before the request arrived")
+    elif st2 != 200 or body2 != b"new and longer content":
+        ctx.violation("200-with-old-or-wrong-content", case, f"{st2} {body2[:30]!r}")
+
+
+def in_flight(ctx, vfs, targets, seed):
+    import random
+
+    from vf import inflight
+    rng = random.Random(seed)
+    iface, app = rng.choice([(t[0], t[1]) for t in targets])
+    mine = [t for t in targets if t[1] is app]
+    held = {}
+    for k, t in enumerate(mine):
+        with open(t[3], "wb") as f:
+            f.write(b"v%d" % k * (k + 2))
+        vfs.state[t[3]] = {"m": 1_000_000.0 + 10 * k, "c": 1_000_000.0 + 10 * k}
+        st, h, body, exc = request(iface, app, t[2], [])
+        if st != 200 or exc is not None:
+            ctx.violation("plain-request-not-200", {"iface": iface, "target": t[2], "in_flight_seed": seed}, f"{st} {exc!r}")
+            return
+        held[t[2]] = (h["etag"], h["last-modified"])
+    reqs, spec = [], []
+    for _ in range(rng.choice([2, 3, 5])):
+        t = rng.choice(mine)
+        other = rng.choice(mine)
+        form = rng.choice(["none", "fresh-etag", "fresh-lm", "fresh-both", "stale-etag", "other-files-etag", "other-files-lm"])
+        e, lm = held[t[2]]
+        hd = {"none": [], "fresh-etag": [("If-None-Match", e)], "fresh-lm": [("If-Modified-Since", lm)], "fresh-both": [("If-Modified-Since", lm), ("If-None-Match", e)],
+              "stale-etag": [("If-None-Match", '"0-0"')], "other-files-etag": [("If-None-Match", held[other[2]][0])],
+              "other-files-lm": [("If-Modified-Since", "Thu, 01 Jan 1970 00:00:10 GMT")]}[form]
+        reqs.append(drivers.Req(path=t[2].encode(), headers=hd, server=("t", 80)))
+        spec.append((t[2], form))
+    inflight.check_group(ctx, iface, app, reqs, "conditional", {"in_flight_seed": seed, "target": spec})
+
+
 def replay(ctx, case):
+    if case.get("changed_while_in_flight"):
+        vfs = VFS()
+        try:
+            for t in setup(ctx):
+                if t[0] == case["iface"] and t[2] == case["target"]:
+                    changed_while_in_flight(ctx, vfs, t, case["loop_busy_for"])
+                    break
+            ctx.case(1)
+        finally:
+            vfs.close()
+        return
+    if "tag_sweep" in case:
+        vfs = VFS()
+        try:
+            ts = case["tag_sweep"]
+            for t in setup(ctx):
+                if t[0] == case["iface"] and t[2] == case["target"]:
+                    tag_sweep(ctx, vfs, t, sorted({ts["held"]["size"], ts["now"]["size"]}), sorted({ts["held"]["mtime_offset"], ts["now"]["mtime_offset"]}))
+                    break
+            ctx.case(1)
+        finally:
+            vfs.close()
+        return
+    if "in_flight_seed" in case:
+        vfs = VFS()
+        try:
+            in_flight(ctx, vfs, setup(ctx), case["in_flight_seed"])
+            ctx.case(1)
+        finally:
+            vfs.close()
+        return
     vfs = VFS()
     try:
         targets = setup(ctx)
